@@ -35,6 +35,10 @@ type C09Case struct {
 func c09Gen(t *rapid.T) C09Case {
 	g := &gen.G{T: t, P: gen.Profile{Unicode: true, HTMLChars: true, Directives: true}}
 	o := gen.ProgOpts{MaxTemplates: 5, MaxDepth: 3, MaxCmds: 4, ExprDepth: 2, PosWeight: 2, CallWeight: 10, ScopeWeight: 4, MinTemplates: 3, AllData: true, MsgStress: 40, MsgWeight: 4, NoLog: true}
+	if g.Chance(50) {
+		// a large bundle (size-dependent code paths such as lookup tables)
+		o.MaxTemplates, o.MinTemplates, o.MaxCmds = 16, 10, 3
+	}
 	c := C09Case{Prog: gen.GenProgram(g, o)}
 	g2 := &gen.G{T: t, P: g.P}
 	c.Other = gen.GenProgram(g2, o)
@@ -56,6 +60,7 @@ func runC09(c C09Case, rounds int, rec *recorder) error {
 	if err != nil || pn != nil {
 		return nil // not this property's matter
 	}
+	_ = cb
 	if c.Obligatory {
 		saved := soyhtml.ObligatoryPrintDirectiveNames
 		soyhtml.ObligatoryPrintDirectiveNames = []string{"id"}
@@ -102,6 +107,14 @@ func runC09(c C09Case, rounds int, rec *recorder) error {
 	for _, cfg := range configs {
 		G, procs := cfg[0], cfg[1]
 		runtime.GOMAXPROCS(procs)
+		// a freshly compiled bundle: its very first renders happen concurrently
+		// (lazily built state would be initialised under contention)
+		fresh, ferr, fpn := compileBundle(names, srcs, c.Prog.Prog.Globals)
+		if ferr != nil || fpn != nil {
+			return fmt.Errorf("recompiling the bundle failed: %v %v", ferr, fpn)
+		}
+		cb = fresh
+		msgs = identityBundle(cb)
 		var (
 			wg      sync.WaitGroup
 			start   = make(chan struct{})
